@@ -1,8 +1,10 @@
 package main
 
 import (
+	"encoding/hex"
 	"fmt"
 	"math/big"
+	"unicode/utf8"
 
 	"verifharness/vh"
 )
@@ -73,6 +75,7 @@ var sessionGeos = []geoT{
 	mkGeo(128, "42540766411282592856903984951653826560", 52, 56), // /56 delegation out of a /52
 	mkGeo(32, "167772160", 23, 27),                               // not byte aligned
 }
+
 // round-trip geometries: both families, address pools and prefix delegation, non-byte-aligned lengths
 var rtGeos = append(append([]geoT{}, sessionGeos...),
 	mkGeo(128, "42540766411282592856903984951653826560", 120, 128), // 2001:db8::/120 -> 256 x /128 addresses
@@ -104,7 +107,32 @@ var idFamilies = [][]string{
 	{"/", "//", "/x", "x/", "x", "x//"},
 	{"/allocation/p/", "/allocation/p/s0", "s0", "allocation/p/s0", "p/s0", "/allocation/"},
 	{"s0", "s1", "s2", "s3", "s4", "s5"},
+	// not valid UTF-8 (binary circuit ids): encoding/json rewrites each offending byte of a string to U+FFFD,
+	// so the copies of these ids inside JSON values collide with each other and with the literal U+FFFD id
+	{"\xff", "\xfe", "\xef\xbf\xbd", "a\xc3", "a\xef\xbf\xbd", "\xc3\x28"},
+	{"\x00", "\x00\x01", "\xed\xa0\x80", "\xf4\x90\x80\x80", "\xc0\xaf", "\xe2\x82"},
+	// valid UTF-8 outside ASCII, JSON-escaped characters, quotes, line separators
+	{"é", "e\u0301", "日本/語", "<a&b>", "q\"uote\\", "l\u2028s"},
 }
+
+// ids of a case: stored hex-encoded when they are not all valid UTF-8 (the JSON description must carry them byte-exact)
+func setNames(c *Case, ids []string) {
+	allValid := true
+	for _, s := range ids {
+		if !utf8.ValidString(s) {
+			allValid = false
+		}
+	}
+	if allValid {
+		c.Names = ids
+		return
+	}
+	c.Names = nil
+	for _, s := range ids {
+		c.NamesX = append(c.NamesX, hex.EncodeToString([]byte(s)))
+	}
+}
+
 var poolIDs = []string{"p", "p", "pool/1", "p/"}
 
 func withIDs(r *vh.Rng, c Case) Case {
@@ -113,9 +141,11 @@ func withIDs(r *vh.Rng, c Case) Case {
 	}
 	fam := idFamilies[r.Intn(len(idFamilies))]
 	perm := randPerm(r, len(fam))
+	var ids []string
 	for h := 0; h < c.Univ && h < len(fam); h++ {
-		c.Names = append(c.Names, fam[perm[h]])
+		ids = append(ids, fam[perm[h]])
 	}
+	setNames(&c, ids)
 	c.Pool = poolIDs[r.Intn(len(poolIDs))]
 	return c
 }
@@ -155,6 +185,7 @@ func genExhaustive(lease bool, g geoT, univ, depth int, origin string, allFail b
 			for i, o := range s {
 				if i == failAt {
 					o.Fail = true
+					o.Down = (si+failAt)%2 == 1 // the store stays unreachable for the whole call
 				}
 				c.Ops = append(c.Ops, o)
 				if failAt == -1 || i == failAt || i == depth-1 {
@@ -168,7 +199,7 @@ func genExhaustive(lease bool, g geoT, univ, depth int, origin string, allFail b
 				}
 			}
 			if fam := idFamilies[(si+len(out))%len(idFamilies)]; si%2 == 0 {
-				c.Names = fam[:univ]
+				setNames(&c, fam[:univ])
 			}
 			out = append(out, c)
 		}
@@ -198,11 +229,11 @@ func genRandomDist(r *vh.Rng, lease bool, n, maxOps int, guarded bool, origin st
 			x := rr.Intn(100)
 			switch {
 			case x < 26:
-				c.Ops = append(c.Ops, Op{K: "alloc", H: h, Mac: rr.Chance(1, 4), Fail: rr.Chance(1, 5)})
+				c.Ops = append(c.Ops, Op{K: "alloc", H: h, Mac: rr.Chance(1, 4), Fail: rr.Chance(1, 5), Down: rr.Bool()})
 			case x < 40:
-				c.Ops = append(c.Ops, Op{K: "rel", H: h, Fail: rr.Chance(1, 4)})
+				c.Ops = append(c.Ops, Op{K: "rel", H: h, Fail: rr.Chance(1, 4), Down: rr.Bool()})
 			case x < 46:
-				c.Ops = append(c.Ops, Op{K: "renew", H: h, Fail: rr.Chance(1, 4), FailG: rr.Chance(1, 6)})
+				c.Ops = append(c.Ops, Op{K: "renew", H: h, Fail: rr.Chance(1, 4), FailG: rr.Chance(1, 6), Down: rr.Bool()})
 			case x < 52:
 				c.Ops = append(c.Ops, Op{K: "get", H: h})
 			case x < 57:
@@ -232,13 +263,17 @@ func genRandomDist(r *vh.Rng, lease bool, n, maxOps int, guarded bool, origin st
 				}
 				c.Ops = append(c.Ops, Op{K: "rputf", H: h, Idx: rr.Intn(8), Ep: uint64(rr.Intn(4))})
 			case x < 90:
-				c.Ops = append(c.Ops, Op{K: "rputown", H: h, Ep: uint64(2 + rr.Intn(3))})
+				if rr.Chance(1, 3) && !(lease && guarded) { // the value names another subscriber than the key
+					c.Ops = append(c.Ops, Op{K: "rputx", H: h, VH: rr.Intn(univ), Idx: rr.Intn(8), Ep: uint64(2 + rr.Intn(3))})
+				} else {
+					c.Ops = append(c.Ops, Op{K: "rputown", H: h, Ep: uint64(2 + rr.Intn(3))})
+				}
 			case x < 92 || guarded:
 				c.Ops = append(c.Ops, Op{K: "rdel", H: h})
 			default:
 				if !guarded {
 					if rr.Chance(2, 3) {
-						c.Ops = append(c.Ops, Op{K: "echo", Idx: rr.Intn(6)})
+						c.Ops = append(c.Ops, Op{K: "echo", Idx: rr.Intn(6), Dup: rr.Chance(1, 3)})
 					} else {
 						a := g.unitAddrs[rr.Intn(len(g.unitAddrs))]
 						pl := g.pl
@@ -281,7 +316,7 @@ func genLeaseOrdered(r *vh.Rng, n int) []Case {
 				c.Ops = append(c.Ops, Op{K: "renew", H: h})
 			}
 			if rr.Chance(1, 3) { // re-Allocate of a subscriber that already holds a lease, Put may fail
-				c.Ops = append(c.Ops, Op{K: "alloc", H: order[rr.Intn(i+1)], Fail: rr.Bool()})
+				c.Ops = append(c.Ops, Op{K: "alloc", H: order[rr.Intn(i+1)], Fail: rr.Bool(), Down: rr.Bool()})
 			}
 		}
 		c.Ops = append(c.Ops, Op{K: "restart", Ord: order})
@@ -440,14 +475,25 @@ func genIDs(r *vh.Rng) []Case {
 				}
 				univ := 4 + r.Intn(3)
 				c := distCase(g, lease, univ, "ids")
-				c.Pool, c.Names, c.Sync = pool, fam[:univ], r.Bool()
+				c.Pool, c.Sync = pool, r.Bool()
+				setNames(&c, fam[:univ])
 				for h := 0; h < univ; h++ {
 					c.Ops = append(c.Ops, Op{K: "alloc", H: h})
+				}
+				if lease {
+					for h := 0; h < univ; h += 2 {
+						c.Ops = append(c.Ops, Op{K: "renew", H: h})
+					}
+				} else {
+					c.Ops = append(c.Ops, Op{K: "restart", Ord: randPerm(r, univ)}, Op{K: "alloc", H: univ - 1},
+						Op{K: "alloc", H: 0, Fail: true, Down: true}, Op{K: "restart", Ord: randPerm(r, univ)})
 				}
 				for _, h := range randPerm(r, univ) {
 					c.Ops = append(c.Ops, Op{K: "rdel", H: h})
 					if r.Bool() {
 						c.Ops = append(c.Ops, Op{K: "rputf", H: h, Idx: r.Intn(4), Ep: 2})
+					} else if !lease && r.Bool() {
+						c.Ops = append(c.Ops, Op{K: "rputx", H: h, VH: r.Intn(univ), Idx: r.Intn(4), Ep: 2})
 					}
 					if r.Chance(1, 3) {
 						c.Ops = append(c.Ops, Op{K: "alloc", H: h})
